@@ -119,7 +119,7 @@ CallResult forked(const std::function<int()>& fn, bool leak_check) {
   if (pid == 0) {
     close(fd[0]);
 #if defined(__SANITIZE_ADDRESS__)
-    { int nfd = open("/dev/null", O_WRONLY); if (nfd >= 0) __sanitizer_set_report_fd((void*) (long) nfd); }   // the verdict travels through the pipe
+    { int nfd = open("/dev/null", O_WRONLY); if (nfd >= 0) { __sanitizer_set_report_fd((void*) (long) nfd); dup2(nfd, 2); } }   // the verdict travels through the pipe
 #endif
     signal(SIGSEGV, child_sig); signal(SIGBUS, child_sig); signal(SIGABRT, child_sig); signal(SIGFPE, child_sig); signal(SIGILL, child_sig);
     alarm(20);
@@ -183,7 +183,9 @@ bool release_obj(Case& c, int idx) {
   ++c.deleted;
   return true;
 }
+Case::~Case() { if (!cleaned) { try { cleanup(*this); } catch (...) {} } }
 void cleanup(Case& c) {
+  c.cleaned = true;
   // dependents (iterators, borrowed references) first
   for (int pass = 0; pass < 2; ++pass)
     for (int i = (int) c.objs.size() - 1; i >= 0; --i)
